@@ -959,3 +959,26 @@ package gomatrixserverlib
 //@   calls CheckKeys valid-until-future: unixNano(now) == nowNano
 //@   loop 1: invariant 0 <= idx(1) && idx(1) <= len(serverKeys)
 //@   loop 2: invariant 0 <= idx(2) && idx(2) <= len(keyIDs)
+
+// ---------------------------------------------------------------- C06: required signers
+
+//@ func VerifyEventSignatures
+//@   property C06
+//@   requires e != nil && verifier != nil && userIDForSender != nil
+//@   ensures verified: err == nil ==> (called(VerifyJSONs) && ret(VerifyJSONs, 1) == nil && (forall i int :: 0 <= i && i < len(ret(VerifyJSONs, 0)) ==> ret(VerifyJSONs, 0)[i].Error == nil))
+//@   calls VerifyJSONs@root every-required-signer: forall s string :: signerNeeded(e, ret(GetRoomVersion, 0), userIDForSender, s) ==> (exists i int :: 0 <= i && i < len(requests) && string(requests[i].ServerName) == s)
+//@   calls VerifyJSONs@root sender-server-required: !isPseudo(e) ==> (userIDForSender(e.RoomID(), e.SenderID())[0] != nil && (exists i int :: 0 <= i && i < len(requests) && string(requests[i].ServerName) == userIDForSender(e.RoomID(), e.SenderID())[0].domain))
+//@   calls VerifyJSONs@root only-required-signers: forall i int :: 0 <= i && i < len(requests) ==> signerNeeded(e, ret(GetRoomVersion, 0), userIDForSender, string(requests[i].ServerName))
+//@   calls VerifyJSONs@root redacted-event-at-its-timestamp: forall i int :: 0 <= i && i < len(requests) ==> (requests[i].Message == ret(RedactEventJSON, 0) && requests[i].AtTS == e.OriginServerTS())
+//@   calls RedactEventJSON whole-event: eventJSON == e.JSON() && ref(recv) == verImplRef(string(e.Version()))
+//@   loop 1: invariant forall s string :: seen(1)[s] ==> (exists i int :: 0 <= i && i < len(toVerify) && string(toVerify[i].ServerName) == s)
+//@   loop 1: invariant forall i int :: 0 <= i && i < len(toVerify) ==> (string(toVerify[i].ServerName) in needed && toVerify[i].Message == redactedJSON && toVerify[i].AtTS == e.OriginServerTS())
+//@   loop 2: invariant 0 <= idx(2) && idx(2) <= len(results) && (forall i int :: 0 <= i && i < idx(2) ==> results[i].Error == nil)
+
+//@ func validateMXIDMappingSignatures
+//@   property C06
+//@   requires e != nil && verifier != nil && verImpl != nil
+//@   ensures verified: err == nil ==> (called(VerifyJSONs) && ret(VerifyJSONs, 1) == nil && (forall i int :: 0 <= i && i < len(ret(VerifyJSONs, 0)) ==> ret(VerifyJSONs, 0)[i].Error == nil))
+//@   calls VerifyJSONs every-mapping-signer: forall s string :: s in mapping.Signatures ==> (exists i int :: 0 <= i && i < len(requests) && string(requests[i].ServerName) == s)
+//@   loop 1: invariant forall s string :: seen(1)[s] ==> (exists i int :: 0 <= i && i < len(toVerify) && string(toVerify[i].ServerName) == s)
+//@   loop 2: invariant 0 <= idx(2) && idx(2) <= len(results) && (forall i int :: 0 <= i && i < idx(2) ==> results[i].Error == nil)
